@@ -334,7 +334,10 @@ func (p *ropeParser) peekByte() (byte, bool) {
 		return 0, false
 	}
 	if !t.IsConst() {
-		p.th.st.abort("JSON text with symbolic structural bytes")
+		// a symbolic byte at a structural position: case-split its value
+		v := p.th.st.concretize(t, 80, "json structural byte")
+		p.e[p.pos] = mkBV(8, v)
+		return byte(v), true
 	}
 	return byte(t.c), true
 }
@@ -481,7 +484,16 @@ func (p *ropeParser) parseStringLit() *StrVal {
 			// symbolic content byte: must not be a quote, backslash or control
 			bad := mkOr(mkEq(t, mkBV(8, '"')), mkOr(mkEq(t, mkBV(8, '\\')), mkCmp("bvult", t, mkBV(8, 0x20))))
 			if p.th.st.branch(bad, "string-lit-special") {
-				p.th.st.abort("symbolic string byte that needs JSON escaping inside literal text")
+				v := p.th.st.concretize(t, 40, "string literal special byte")
+				switch {
+				case v == '"':
+					return &StrVal{e: out}
+				case v == '\\':
+					p.th.st.abort("escape sequence in literal JSON text not modelled")
+				default:
+					p.err = true
+					return nil
+				}
 			}
 			out = append(out, t)
 			continue
